@@ -257,3 +257,131 @@ func (c *Ctx) pfbTables() {
 	}
 	c.check(len(tbad) == 0 && nText == 3, "PFB-TEXT", fname, "a text read never asks for more than the remaining segment length", fn.Pos(), "k = min(len(b), remaining) in all three orderings", "text segments: "+joinMax(tbad, 2))
 }
+
+// pfbExpandRule: the binary state is evaluated for caller buffers of 1, 4 and 5 bytes holding
+// symbolic bytes; the segment bytes read are symbols d0, d1, …; the nibble encoder is opaque.
+// Afterwards position i of the buffer must hold hex(high nibble of d[i/2]) for even i and
+// hex(low nibble) for odd i — which is only the case if the in-place expansion runs from the back.
+func (c *Ctx) pfbExpandRule() {
+	fn := c.method("pfb", "pfbReader", "Read")
+	fname := c.fname(fn)
+	H := loopHeader(fn)
+	if H == nil {
+		return
+	}
+	stateF, lenF, tailF, srcF := c.fld("pfb.state"), c.fld("pfb.len"), c.fld("pfb.tail"), c.fld("pfb.r")
+	var bad []string
+	for _, n := range []int{1, 2, 4, 5} {
+		ev := &ssaEval{c: c, bind: map[ssa.Value]sv{}, mem: map[string]sv{}}
+		var cells []sv
+		for i := 0; i < n; i++ {
+			cells = append(cells, symV(fmt.Sprintf("old%d", i)))
+		}
+		buf := ev.newList(cells)
+		ev.noInline = func(g *ssa.Function) bool {
+			// the nibble encoder: a function from one byte to one byte
+			sig := g.Signature
+			return sig.Recv() == nil && sig.Params().Len() == 1 && sig.Results().Len() == 1 && sig.Params().At(0).Type().String() == "byte" && sig.Results().At(0).Type().String() == "byte"
+		}
+		ev.load = func(ld *ssa.UnOp, addr sv) (sv, bool) {
+			a := addr.s
+			switch {
+			case strings.HasSuffix(a, "."+stateF):
+				return intV(2), true
+			case strings.HasSuffix(a, "."+lenF):
+				return intV(1000), true
+			case strings.HasSuffix(a, "."+tailF):
+				return symV("tail"), true
+			case strings.HasSuffix(a, "."+srcF):
+				return symV("src"), true
+			}
+			return sv{}, false
+		}
+		ev.call = func(call ssa.CallInstruction, args []sv) (sv, bool) {
+			if call == nil {
+				return sv{}, false
+			}
+			if callName(call) == "io.ReadFull" && len(args) == 2 && args[1].k == svList {
+				for i := int64(0); i < args[1].n; i++ {
+					ev.lists[args[1].s][args[1].i+i] = symV(fmt.Sprintf("d%d", i))
+				}
+				return sv{k: svTuple, tup: []sv{intV(args[1].n), {k: svNil}}}, true
+			}
+			if g := call.Common().StaticCallee(); g != nil && c.inModule(g) && ev.noInline(g) && len(args) == 1 {
+				return symV("hex(" + args[0].String() + ")"), true
+			}
+			return sv{}, false
+		}
+		fr := &frame{vals: map[ssa.Value]sv{}}
+		fr.vals[fn.Params[0]] = sv{k: svAddr, s: "r"}
+		fr.vals[fn.Params[1]] = buf
+		at, _, _ := ev.runBlocks(fr, fn.Blocks[0], nil, func(next, from *ssa.BasicBlock) bool { return next == H })
+		if at != H {
+			bad = append(bad, "main loop not reached: "+ev.why)
+			continue
+		}
+		var nPhi *ssa.Phi
+		for _, ins := range H.Instrs {
+			if phi, ok := ins.(*ssa.Phi); ok {
+				if _, isSlice := phi.Type().Underlying().(*types.Slice); isSlice {
+					fr.vals[phi] = buf
+				} else {
+					fr.vals[phi] = intV(0)
+					nPhi = phi
+				}
+			}
+		}
+		ev.effects, ev.why = nil, ""
+		back := false
+		_, from, _ := ev.runBlocks(fr, H, nil, func(next, f *ssa.BasicBlock) bool {
+			if next == H {
+				back = true
+			}
+			return next == H
+		})
+		if !back {
+			bad = append(bad, fmt.Sprintf("buffer of %d byte(s): the pass does not come back to the loop (%s)", n, ev.why))
+			continue
+		}
+		var got, want []string
+		for i := 0; i < n; i++ {
+			got = append(got, ev.lists[buf.s][i].String())
+			d := fmt.Sprintf("d%d", i/2)
+			if i%2 == 0 {
+				want = append(want, "hex(>>u8("+d+",4))")
+			} else {
+				want = append(want, "hex(&u8(15,"+d+"))")
+			}
+		}
+		if strings.Join(got, " ") != strings.Join(want, " ") {
+			bad = append(bad, fmt.Sprintf("a caller buffer of %d byte(s) ends up as [%s], expected [%s]", n, strings.Join(got, " "), strings.Join(want, " ")))
+		}
+		// bytes delivered, pending nibble
+		if nPhi != nil {
+			for i, p := range H.Preds {
+				if p == from {
+					if v := ev.val(fr, nPhi.Edges[i]); v.k != svInt || v.i != int64(n) {
+						bad = append(bad, fmt.Sprintf("a caller buffer of %d byte(s) is reported as %s bytes delivered", n, v))
+					}
+				}
+			}
+		}
+		if n%2 == 1 {
+			tail := ""
+			st := int64(0)
+			for _, ef := range ev.effects {
+				if ef.what == "store" && strings.HasSuffix(ef.addr, "."+tailF) {
+					tail = ef.args[0].String()
+				}
+				if ef.what == "store" && strings.HasSuffix(ef.addr, "."+stateF) && ef.args[0].k == svInt {
+					st = ef.args[0].i
+				}
+			}
+			wantTail := fmt.Sprintf("hex(&u8(15,d%d))", n/2)
+			if tail != wantTail || st != -1 {
+				bad = append(bad, fmt.Sprintf("an odd buffer of %d byte(s) leaves the pending digit %q in state %d, expected %s in the leftover state", n, tail, st, wantTail))
+			}
+		}
+	}
+	c.check(len(bad) == 0, "PFB-EXPAND", fname, "in-place expansion from the back: position i gets the high (i even) or low (i odd) nibble of byte i/2; an odd buffer keeps the last digit pending", fn.Pos(), "buffers of 1, 2, 4, 5 bytes evaluated", "hex expansion: "+joinMax(bad, 2))
+}
